@@ -208,6 +208,47 @@ def gen_mutants(rng, o, n):
     return out
 
 
+def gen_long_tokens(rng, o, n):
+    """Tokens around the internal buffer sizes: number runs of 60..70 and 200 characters (the number buffer
+    holds 63), long strings and keys (the string builder starts at 31 and doubles), long whitespace,
+    long comments; at top level, inside arrays and objects, kept and skipped by a filter."""
+    out = []
+    lens = [30, 31, 32, 33, 61, 62, 63, 64, 65, 66, 70, 127, 128, 129, 200, 300]
+    for _ in range(n):
+        L = rng.choice(lens)
+        kind = rng.randrange(7)
+        if kind == 0:
+            tok = bytes(rng.choice(b"0123456789") for _ in range(L))
+            tok = (b"-" if rng.random() < 0.3 else b"") + (tok.lstrip(b"0") or b"1")
+        elif kind == 1:
+            tok = b"1." + bytes(rng.choice(b"0123456789") for _ in range(L))
+        elif kind == 2:
+            tok = bytes(rng.choice(b"0123456789") for _ in range(L)) + rng.choice([b"e5", b"E-7", b"e+10", b".5e1"])
+        elif kind == 3:
+            tok = bytes(rng.choice(b"0123456789+-.eE") for _ in range(L))
+        elif kind == 4:
+            L = min(L, 200)   # stays below the 255-byte limit of the smallest configuration
+            tok = b'"' + bytes(rng.choice(b"abcdefghij \\n") for _ in range(L)).replace(b"\\", b"\\\\").replace(b"n\\", b"nn") + b'"'
+        elif kind == 5:
+            tok = b" " * L + rng.choice([b"1", b"true", b"[]"]) + b"\n" * rng.randrange(3)
+        else:
+            tok = (b"/*" + b"x" * L + b"*/1") if o["comments"] else b"\t" * L + b"null"
+        ctx = rng.randrange(5)
+        if ctx == 0:
+            text = tok
+        elif ctx == 1:
+            text = b"[" + tok + b"]"
+        elif ctx == 2:
+            text = b"[1," + tok + b",2]"
+        elif ctx == 3:
+            text = b'{"a":' + tok + b',"b":' + tok + b"}"
+        else:
+            text = b'{"k":[' + tok + b"]}" + rng.choice([b"", b" x"])
+        f = rng.choice([TRUE, TRUE, FALSE, node("o", c=[node("m", b"b", [TRUE])]), node("a", c=[FALSE])])
+        out.append(line(text, o, lim=rng.choice([2, 10]), f=f, tag="longtoken"))
+    return out
+
+
 def gen_filtered(rng, o, n):
     out = []
     for _ in range(n):
